@@ -567,8 +567,12 @@ class Supercell(object):
 
         # 2. identify the shortest common set of defects:
         defcount = {k: len(v) for k, v in selfdefects.items()}
-        deftype = min(defcount, key=defcount.get)  # key to min value from dictionary
-        shortset, matchset = selfdefects[deftype], otherdefects[deftype]
+        if defcount:
+            deftype = min(defcount, key=defcount.get)  # key to min value from dictionary
+            shortset, matchset = selfdefects[deftype], otherdefects[deftype]
+        else:
+            # no defects at all (e.g., two perfect cells): every operation is a candidate
+            shortset, matchset = set(), set()
 
         mapping = None
         gocc = self.occ.copy()
